@@ -2687,7 +2687,7 @@ class Cast(ColExpr):
         if types.is_const(target_type):
             raise TypeError("cannot cast to `const` type")
 
-        self.val = val
+        self.val = wrap_literals(val)  # an ordering marker cannot be cast
         self.target_type = copy.copy(target_type)
         self.strict = strict
         self._fn_id = uuid.uuid1()
@@ -2867,7 +2867,8 @@ class Order:
         if descending is None:
             descending = False
 
-        return Order(expr, descending, nulls_last)
+        # below the markers peeled off above, no further marker is allowed
+        return Order(wrap_literals(expr), descending, nulls_last)
 
     def ast_repr(self, depth: int = -1):
         return self._ast_repr(depth, False, dict())
